@@ -60,3 +60,95 @@ Theorem C15_intake_accept_effect : forall s r s',
   i_unpub s' = if ir_unpub_type r then i_unpub s ++ [ir_id r] else i_unpub s.
 Proof. exact intake_accept_effect. Qed.
 Print Assumptions C15_intake_accept_effect.
+
+From SV Require Import Resolve.Op Batch.Files Batch.TxnProc Batch.TxnProofs Batch.TxnIsolation.
+Local Close Scope Z_scope.
+
+(* the observer's effect on the store: the initial store followed by the contribution of each transaction, in order *)
+Theorem C15_observer_closed_form :
+  forall (txns : list (stxn * bool * bool)) (store : list sop),
+         observe store txns = store ++ concat (map contribution txns).
+Proof. exact observe_closed_form. Qed.
+Print Assumptions C15_observer_closed_form.
+
+(* a failing transaction (no protocol client, no protocol version, operations unreadable, Put fails) can be removed from the list, at any position, from any store *)
+Theorem C15_failing_txn_removable :
+  forall (store : list sop) (l1 : list entry) (e : entry) (l2 : list entry),
+         failing e -> observe store (l1 ++ e :: l2) = observe store (l1 ++ l2).
+Proof. exact failing_txn_removable. Qed.
+Print Assumptions C15_failing_txn_removable.
+
+(* exactly the failing and the empty transactions can be removed *)
+Theorem C15_removable_iff_no_contribution :
+  forall (store : list sop) (l1 : list (stxn * bool * bool)) (e : stxn * bool * bool)
+           (l2 : list (stxn * bool * bool)),
+         observe store (l1 ++ e :: l2) = observe store (l1 ++ l2) <->
+         failing e \/ tx_ops (e_txn e) = Some [].
+Proof. exact removable_iff_no_contribution. Qed.
+Print Assumptions C15_removable_iff_no_contribution.
+
+(* the transactions after a failing one are processed from the store the earlier ones left *)
+Theorem C15_later_txns_proceed :
+  forall (store : list sop) (l1 : list entry) (e : entry) (l2 : list entry),
+         failing e -> observe store (l1 ++ e :: l2) = observe (observe store l1) l2.
+Proof. exact later_txns_proceed. Qed.
+Print Assumptions C15_later_txns_proceed.
+
+(* all failing transactions at once *)
+Theorem C15_failing_txns_filtered :
+  forall (txns : list (stxn * bool * bool)) (store : list sop),
+         observe store txns = observe store (filter (fun e : entry => negb (failingb e)) txns).
+Proof. exact failing_txns_filtered. Qed.
+Print Assumptions C15_failing_txns_filtered.
+
+(* along the list the store only grows at its end *)
+Theorem C15_store_grows_along_list :
+  forall (store : list sop) (l1 l2 : list (stxn * bool * bool)),
+         exists added : list sop, observe store (l1 ++ l2) = observe store l1 ++ added.
+Proof. exact observe_grows. Qed.
+Print Assumptions C15_store_grows_along_list.
+
+(* every stored operation was there before or is an operation of a NON-failing transaction of the list and carries its coordinates *)
+Theorem C15_stored_op_origin :
+  forall (store : list sop) (txns : list (stxn * bool * bool)) (s : sop),
+         In s (observe store txns) ->
+         In s store \/
+         (exists (e : stxn * bool * bool) (ops : list rop) (o : rop),
+            In e txns /\
+            ~ failing e /\
+            tx_ops (e_txn e) = Some ops /\
+            In o ops /\
+            In o (first_per_suffix [] ops) /\
+            so_req s = o /\
+            so_ty s = ro_ty o /\
+            so_sfx s = ro_sfx o /\
+            so_time s = tx_time (e_txn e) /\
+            so_num s = tx_num (e_txn e) /\
+            so_pver s = tx_pver (e_txn e) /\
+            so_cref s = tx_cref (e_txn e) /\ so_eqv s = tx_eqv (e_txn e)).
+Proof. exact stored_op_origin. Qed.
+Print Assumptions C15_stored_op_origin.
+
+(* every kept operation of a non-failing transaction is stored *)
+Theorem C15_non_failing_txn_stored :
+  forall (store : list sop) (txns : list entry) (e : entry) (ops : list rop) (o : rop),
+         In e txns ->
+         ~ failing e ->
+         tx_ops (e_txn e) = Some ops ->
+         In o (first_per_suffix [] ops) -> In (stamp (e_txn e) o) (observe store txns).
+Proof. exact non_failing_txn_stored. Qed.
+Print Assumptions C15_non_failing_txn_stored.
+
+(* from the empty store: at most one stored operation per (suffix, transaction time, number) when the coordinates of the non-failing transactions are distinct *)
+Theorem C15_one_op_per_suffix_and_txn :
+  forall txns : list entry,
+         NoDup (map coord (filter (fun e : entry => negb (failingb e)) txns)) ->
+         NoDup (map op_key (observe [] txns)).
+Proof. exact one_op_per_suffix_and_txn. Qed.
+Print Assumptions C15_one_op_per_suffix_and_txn.
+
+(* the same under pairwise distinct coordinates of all transactions *)
+Theorem C15_one_op_per_suffix_and_txn_all :
+  forall txns : list entry, NoDup (map coord txns) -> NoDup (map op_key (observe [] txns)).
+Proof. exact one_op_per_suffix_and_txn_all. Qed.
+Print Assumptions C15_one_op_per_suffix_and_txn_all.
